@@ -11,7 +11,7 @@ import WmModel.Lemmas.Mw
 namespace Wm.Mw
 
 /-- a concrete message state used by the non-vacuity examples -/
-def exSt (script : List Res) : St := ⟨⟨0, false, false⟩, [(cidKey, "id-7"), ("k", "v")], .absent, false, false, 0, script, []⟩
+def exSt (script : List Res) : St := ⟨⟨0, false, false⟩, [(cidKey, "id-7"), ("k", "v")], .absent, false, false, 0, script, [], none⟩
 
 /-! ## Timeout -/
 
@@ -47,7 +47,7 @@ example : (apply (.timeout false) scripted (exSt [.panic .nil])) =
 theorem Old.timeout_leaves_context_done :
     (Old.timeout false scripted (exSt [.ret [] none])).2.ctx.done = true ∧
     (runC true [.retry 2] (Old.timeout false scripted) (exSt [.ret [] (some (.base "x"))])).2.log.length = 1 ∧
-    (run [.retry 2, .timeout false] scripted (exSt [.ret [] (some (.base "x"))])).2.log.length = 3 := by decide
+    (run [.retry 2, .timeout false] scripted (exSt [.ret [] (some (.base "x"))])).2.log.length = 3 := by decide +kernel
 
 /-! ## CorrelationID -/
 
@@ -315,7 +315,7 @@ example : (List.range 3).map (delayAt ⟨7, 100, 5, 2⟩) = [7, 17, 42] ∧ gapB
 
 /-- witness of D3 (the unrepaired multiplication): Multiplier 1.5 was truncated to 1 -/
 theorem Old.delay_fraction_truncated :
-    Old.applyDelay ⟨1000, 100000, 3, 2⟩ (.ns 1000) = 1000 ∧ applyDelay ⟨1000, 100000, 3, 2⟩ (.ns 1000) = 1500 := by decide
+    Old.applyDelay ⟨1000, 100000, 3, 2⟩ (.ns 1000) = 1000 ∧ Wm.Mw.applyDelay ⟨1000, 100000, 3, 2⟩ (.ns 1000) = 1500 := by decide
 
 /-! ## Composition: the effect ends with the call -/
 
@@ -373,10 +373,10 @@ theorem retry_own_attempts_all_fail (m : Nat) (o : List Out) (e : Err) (st : St)
 
 /-- non-vacuity: Retry(Timeout(h)), Timeout(Retry(h)), Retry(Recoverer(Timeout0(h))) with a failing handler make
     1+MaxRetries attempts; Timeout0(Retry(h)) – the excluded arrangement – makes one -/
-example : (run [.retry 2, .timeout false] scripted (exSt [.ret [] (some (.base "x"))])).2.log.length = 3 := by decide
-example : (run [.timeout false, .retry 2] scripted (exSt [.ret [] (some (.base "x"))])).2.log.length = 3 := by decide
-example : (run [.retry 2, .recoverer, .timeout true] scripted (exSt [.panic .nil])).2.log.length = 3 := by decide
-example : (run [.timeout true, .retry 2] scripted (exSt [.ret [] (some (.base "x"))])).2.log.length = 1 := by decide
+example : (run [.retry 3, .timeout false] scripted (exSt [.ret [] (some (.base "x"))])).2.log.length = 4 := by decide +kernel
+example : (run [.timeout false, .retry 3] scripted (exSt [.ret [] (some (.base "x"))])).2.log.length = 4 := by decide +kernel
+example : (run [.retry 2, .recoverer, .timeout true] scripted (exSt [.panic .nil])).2.log.length = 3 := by decide +kernel
+example : (run [.timeout true, .retry 3] scripted (exSt [.ret [] (some (.base "x"))])).2.log.length = 1 := by decide +kernel
 example : retryOutsideExpired [.retry 2, .recoverer, .timeout true] = true ∧ retryOutsideExpired [.timeout true, .retry 2] = false := by decide
 
 end Wm.Mw
